@@ -95,8 +95,8 @@ def reduce_shape(shape, axes):
     rank = len(shape)
     drop = set()
     for a in axes:
-        p = a + rank if a < 0 else a
-        if not (0 <= p < rank):
+        p = a + rank  # canonical axes are negative (counted from the end)
+        if a >= 0 or not (0 <= p < rank):
             raise ShapeMismatch("reduction axis %d out of range for rank %d" % (a, rank))
         drop.add(p)
     return tuple(d for i, d in enumerate(shape) if i not in drop)
